@@ -155,11 +155,11 @@ Proof.
   - intros M k Hk. cbv beta.
     match goal with |- context [Z.abs ?e] =>
       replace (Z.abs e) with (Z.of_nat (m k)) by (unfold m; destruct (k <=? r) eqn:E; lia) end.
-    rewrite row_upd_nat by exact Hk. cbn [bind].
-    replace (negb (Z.of_nat (m k) =? 0)%Z) with (negb (m k =? 0)) by (destruct (m k =? 0) eqn:E; lia).
-    destruct (m k =? 0) eqn:E; cbn [negb].
-    + do 3 f_equal. unfold fill2. now rewrite E.
-    + rewrite row_upd_nat by (rewrite upd_length; exact Hk). cbn [bind]. rewrite upd_upd.
-      do 3 f_equal. unfold fill2. now rewrite E.
+    assert (Ez : (Z.of_nat (m k) =? 0)%Z = (m k =? 0)) by (destruct (m k =? 0) eqn:E; lia).
+    rewrite ?Ez.
+    (* whatever the order of the test and the second store: split on the test, resolve the row updates *)
+    destruct (m k =? 0) eqn:E; cbn [negb];
+      repeat (rewrite row_upd_nat by (rewrite ?upd_length; exact Hk); cbn [bind negb]; rewrite ?Ez, ?E);
+      rewrite ?upd_upd; do 3 f_equal; unfold fill2; now rewrite E.
   - rewrite repeat_length. reflexivity.
 Qed.
